@@ -337,3 +337,90 @@ Proof.
   destruct i as [|[|[|i]]]; [| | |exfalso; apply (Nat.lt_irrefl 3); apply (Nat.le_lt_trans _ (S (S (S i)))); [apply le_n_S, le_n_S, le_n_S, Nat.le_0_l|exact Hi]];
     cbn [nth tmain tsub tsup]; unfold Rabs; repeat destruct Rcase_abs; lra.
 Qed.
+
+(* ---- what solve computes over ANY arithmetic (no law assumed; the IEEE float instances included) ----
+   [fwd_rel t r n bl gl yl] (Proofs/TridiagTrace.v) says, with the arithmetic's own operations in the code's association:
+     bl_0 = main_0, bl_0 /= 0, yl_0 = r_0 / bl_0, and for 1 <= k < n:
+     gl_k = sup_{k-1} / bl_{k-1},  bl_k = main_k - sub_{k-1} * gl_k,  bl_k /= 0,  yl_k = (r_k - sub_{k-1} * yl_{k-1}) / bl_k *)
+From OV Require Import Proofs.TridiagTrace Proofs.TridiagRound.
+Theorem thomas_trace : forall (A : Arith) (t : tridiag A) (r u : list A),
+  wfT t -> (1 <= tn t)%nat -> length r = tn t -> tsolve t r = Ok u ->
+  exists bl gl yl : list A,
+    length u = tn t /\ length bl = tn t /\ length gl = tn t /\ length yl = tn t /\
+    fwd_rel t r (tn t) bl gl yl /\
+    nth (tn t - 1) u zero = nth (tn t - 1) yl zero /\
+    (forall i, (i + 1 < tn t)%nat -> nth i u zero = (nth i yl zero - nth (i + 1) gl zero * nth (i + 1) u zero)%A).
+Proof. intros A t r u W Hn Hr. exact (thomas_trace_lemma t r W Hn Hr u). Qed.
+Check thomas_trace : forall (A : Arith) (t : tridiag A) (r u : list A),
+  wfT t -> (1 <= tn t)%nat -> length r = tn t -> tsolve t r = Ok u ->
+  exists bl gl yl : list A,
+    length u = tn t /\ length bl = tn t /\ length gl = tn t /\ length yl = tn t /\
+    fwd_rel t r (tn t) bl gl yl /\
+    nth (tn t - 1) u zero = nth (tn t - 1) yl zero /\
+    (forall i, (i + 1 < tn t)%nat -> nth i u zero = (nth i yl zero - nth (i + 1) gl zero * nth (i + 1) u zero)%A).
+Print Assumptions thomas_trace.
+Example thomas_trace_nonvacuous :       (* a float system that is solved *)
+  let t := @mkT AF [1%float] [4%float; 3%float] [2%float] 2 in
+  wfT t /\ (1 <= tn t)%nat /\ length [1%float; 2%float] = tn t /\ is_ok (tsolve t [1%float; 2%float]) = true.
+Proof. cbv zeta. unfold wfT. cbn [tn tmain tsub tsup length]. repeat split; auto. Qed.
+
+(* ---- backward error of solve in the STANDARD MODEL of floating-point arithmetic ----
+   The operations are arbitrary functions on the reals that commit a relative error of at most u <= 1/64 per operation
+   (no underflow/overflow): this is the textbook abstraction of binary64 (u = 2^-53), NOT the IEEE instance AF that the
+   correspondence check runs -- but it is the same Gallina function [tsolve], instantiated at [ARnd fadd fsub fmul fdiv].
+   Whenever solve answers, the computed x solves a nearby tridiagonal system exactly, row by row (missing neighbours
+   are the padding zeros of 0 :: sub, 0 :: x and of nth's default); [gl] are the computed multipliers gamma_i.
+   For a diagonally dominant matrix |gamma_i| is about <= 1, so that the perturbation is of order u |T|: the
+   backward stability the property claims for diagonally dominant f64 systems, in the form of Higham (sec. 9.6).
+   Not proved: the bound |gamma_i| <= 1 + O(u) under dominance, and the absence of underflow/overflow. *)
+Theorem thomas_backward_error : forall (u : R), (0 <= u <= 1 / 64)%R ->
+  forall (fadd fsub fmul fdiv : R -> R -> R),
+  (forall x y, exists d, (Rabs d <= u)%R /\ fsub x y = ((x - y) * (1 + d))%R) ->
+  (forall x y, exists d, (Rabs d <= u)%R /\ fmul x y = (x * y * (1 + d))%R) ->
+  (forall x y, y <> 0%R -> exists d, (Rabs d <= u)%R /\ fdiv x y = (x / y * (1 + d))%R) ->
+  forall (t : tridiag (ARnd fadd fsub fmul fdiv)) (r x : list R),
+  wfT t -> (1 <= tn t)%nat -> length r = tn t -> tsolve t r = Ok x ->
+  length x = tn t /\
+  exists gl : list R, length gl = tn t /\
+  forall i, (i < tn t)%nat -> exists ea eb ec eg,
+    (Rabs ea <= 3 * u /\ Rabs eb <= 5 * u /\ Rabs ec <= 5 * u /\ Rabs eg <= 9 * u /\
+     nth i (0 :: tsub t) 0 * (1 + ea) * nth i (0 :: x) 0
+     + (nth i (tmain t) 0 * (1 + eb) + nth i (0 :: tsub t) 0 * nth i gl 0 * eg) * nth i x 0
+     + nth i (tsup t) 0 * (1 + ec) * nth (i + 1) x 0 = nth i r 0)%R.
+Proof. intros u Hu fadd fsub fmul fdiv Hs Hm Hd t r x. exact (thomas_backward_error_lemma u Hu fadd fsub fmul fdiv Hs Hm Hd t r x). Qed.
+Check thomas_backward_error : forall (u : R), (0 <= u <= 1 / 64)%R ->
+  forall (fadd fsub fmul fdiv : R -> R -> R),
+  (forall x y, exists d, (Rabs d <= u)%R /\ fsub x y = ((x - y) * (1 + d))%R) ->
+  (forall x y, exists d, (Rabs d <= u)%R /\ fmul x y = (x * y * (1 + d))%R) ->
+  (forall x y, y <> 0%R -> exists d, (Rabs d <= u)%R /\ fdiv x y = (x / y * (1 + d))%R) ->
+  forall (t : tridiag (ARnd fadd fsub fmul fdiv)) (r x : list R),
+  wfT t -> (1 <= tn t)%nat -> length r = tn t -> tsolve t r = Ok x ->
+  length x = tn t /\
+  exists gl : list R, length gl = tn t /\
+  forall i, (i < tn t)%nat -> exists ea eb ec eg,
+    (Rabs ea <= 3 * u /\ Rabs eb <= 5 * u /\ Rabs ec <= 5 * u /\ Rabs eg <= 9 * u /\
+     nth i (0 :: tsub t) 0 * (1 + ea) * nth i (0 :: x) 0
+     + (nth i (tmain t) 0 * (1 + eb) + nth i (0 :: tsub t) 0 * nth i gl 0 * eg) * nth i x 0
+     + nth i (tsup t) 0 * (1 + ec) * nth (i + 1) x 0 = nth i r 0)%R.
+Print Assumptions thomas_backward_error.
+(* the hypotheses are met by operations that do commit errors (u = 1/64: subtraction rounds up by 1/64, multiplication
+   down by 1/128, division is exact), and solve answers on a 1x1 system with them *)
+Example thomas_backward_error_nonvacuous :
+  let u := (1 / 64)%R in
+  let fsub := fun x y => ((x - y) * (1 + 1 / 64))%R in
+  let fmul := fun x y => (x * y * (1 + - (1 / 128)))%R in
+  let fdiv := fun x y => (x / y)%R in
+  (0 <= u <= 1 / 64)%R /\
+  (forall x y, exists d, (Rabs d <= u)%R /\ fsub x y = ((x - y) * (1 + d))%R) /\
+  (forall x y, exists d, (Rabs d <= u)%R /\ fmul x y = (x * y * (1 + d))%R) /\
+  (forall x y, y <> 0%R -> exists d, (Rabs d <= u)%R /\ fdiv x y = (x / y * (1 + d))%R) /\
+  let t := @mkT (ARnd Rplus fsub fmul fdiv) [] [2%R] [] 1 in
+  wfT t /\ (1 <= tn t)%nat /\ length [1%R] = tn t /\ tsolve t [1%R] = Ok [fdiv 1%R 2%R].
+Proof.
+  cbv zeta. split; [lra|]. split; [|split; [|split]].
+  - intros x y. exists (1 / 64)%R. split; [|reflexivity]. unfold Rabs. destruct Rcase_abs; lra.
+  - intros x y. exists (- (1 / 128))%R. split; [|reflexivity]. unfold Rabs. destruct Rcase_abs; lra.
+  - intros x y _. exists 0%R. split; [|ring]. rewrite Rabs_R0. lra.
+  - unfold wfT. cbn [tn tmain tsub tsup length]. repeat split; auto.
+    unfold tsolve. cbn. destruct (Req_EM_T 2 0); [lra|reflexivity].
+Qed.
